@@ -26,6 +26,7 @@ func main() {
 	commands["upgrade"] = cmdUpgrade
 	commands["apicancel"] = cmdApiCancel
 	commands["ctxiow"] = cmdCtxIOW
+	commands["stubctx"] = cmdStubCtx
 	commands["acthelper"] = cmdActHelper
 	if len(os.Args) < 2 {
 		fmt.Fprintln(os.Stderr, "usage: vdriver <command> [flags]")
